@@ -40,6 +40,8 @@ func init() {
 			{ID: "C20-R17", Title: "closers are tested after the newlines", Floor: 2, Run: closersAreTestedAfterTheNewlines},
 			{ID: "C20-R18", Title: "binary operators step over newlines", Floor: 3, Run: binaryOperatorsStepOverNewlines},
 			{ID: "C20-R19", Title: "closers of sequences are expected after the newlines", Floor: 3, Run: closersAreExpectedAfterTheNewlines},
+			{ID: "C20-R20", Title: "block comments end at the first closer", Floor: 1, Run: blockCommentsEndAtTheFirstCloser},
+			{ID: "C20-R21", Title: "diagnostics store their text as given", Floor: 3, Run: diagnosticsStoreTheirTextAsGiven},
 		},
 	})
 }
